@@ -145,6 +145,19 @@ CLAIMED.update({
             "DESIGN.md §3 C19"),
 })
 
+CLAIMED.update({
+    "C07": ("Inductive steps of the real GemHandler (host and equipment role) from every communication state: enable, disable, link "
+            "selected, link lost (the protocol's disconnected event), inbound S1F13, S1F14 with every COMMACK byte and matching / "
+            "non-matching system bytes, another primary, WAIT_CRA timer expiry and delay timer expiry, with a symbolic establish-"
+            "communications delay. The state reached must lie in the set an E30 table allows; COMMUNICATING only via S1F14/COMMACK 0 "
+            "for the outstanding S1F13 or by answering S1F13 with COMMACK 0; exactly one S1F13 on entering WAIT_CRA; the delay timer "
+            "has exactly the configured interval; no user callback runs unless COMMUNICATING; waitfor_communicating(0) and the pending "
+            "virtual timers agree with the state after one and after two steps.",
+            "Trusted: CrossHair + chx, the E30 table in obligations/C07.py; state constructed directly, timers virtual. Outside: wall-clock "
+            "behaviour of threading.Timer, timer-thread vs dispatcher races. Open finding: S1F14 with stale system bytes is accepted.",
+            "DESIGN.md §3 C07"),
+})
+
 NOT_APPLICABLE = {
 }
 
